@@ -454,6 +454,22 @@ Proof.
   - apply zero_plus_series; [now apply zero_addon_revenue | apply addon_revenue_covers_project].
 Qed.
 
+(* hence the same NPV at every discount rate and the same cumulative cash flow in every year *)
+Lemma npv_ext r : forall cf cf', Forall2 Qeq cf cf' -> npv r cf == npv r cf'.
+Proof. intros cf cf' H. induction H as [|x y l l' Hxy _ IH]; simpl; [reflexivity|]. now rewrite Hxy, IH. Qed.
+Lemma running_from_ext : forall l l', Forall2 Qeq l l' -> forall a a', a == a' ->
+  Forall2 Qeq (running_from a l) (running_from a' l').
+Proof.
+  intros l l' H. induction H as [|x y l l' Hxy _ IH]; intros a a' Ha; simpl; [constructor|].
+  assert (Hs : a + x == a' + y) by now rewrite Ha, Hxy. constructor; [assumption | now apply IH].
+Qed.
+Theorem zero_addon_npv a r : a_capex a == 0 -> a_opex a == 0 -> a_egain a == 0 -> a_hgain a == 0 -> a_profit a == 0 ->
+  npv r (addon_project_cashflow a) == npv r (base_project_cashflow a).
+Proof. intros. apply npv_ext. now apply zero_addon_project_cashflow. Qed.
+Theorem zero_addon_cumulative a : a_capex a == 0 -> a_opex a == 0 -> a_egain a == 0 -> a_hgain a == 0 -> a_profit a == 0 ->
+  Forall2 Qeq (running (addon_project_cashflow a)) (running (base_project_cashflow a)).
+Proof. intros. unfold running. apply running_from_ext; [now apply zero_addon_project_cashflow | reflexivity]. Qed.
+
 (* homogeneity of the code's own (vector) computation, through C01 *)
 Lemma teq_sym a b : teq a b -> teq b a.
 Proof. unfold teq. intros (H1 & H2 & H3). repeat split; symmetry; assumption. Qed.
